@@ -178,6 +178,24 @@ CHECKS += [
              "step by step; its general correctness for arbitrary multisets is only tested). The hiding part of PST13 commit/open is exercised "
              "by the correspondence and the implementation-level oracles, not by a theorem."},
 ]
+CHECKS += [
+    {"property_id": "C14",
+     "text": "Coq model of streaming_kzg: key generation, time-efficient commit/open/open_multi_points/batch_open_multi_points, the "
+             "space-efficient commit/open/open_multi_points over reversed streams (sliding-window division), both verifier keys, verify and "
+             "verify_multi_points (Lagrange interpolation as coded), the stack machines of FoldedPolynomialTree/Stream with init_stack, "
+             "commit_folding and open_folding. Theorems (unbounded): space open = time open and space commit = time commit for every "
+             "polynomial, point and key with enough powers; verify accepts the prover's output and no other value; the long division by the "
+             "vanishing polynomial is exact with a remainder of length k; the streaming open_multi_points returns exactly that remainder and "
+             "the commitment to that quotient (polynomials shorter than the point set included) and the remainder takes the polynomial's "
+             "values at the points; one folding step halves the length and satisfies fold(x^2) = p(x). Correspondence: library time and "
+             "space provers and the extracted model on the same keys (trapdoor replayed from the seeded RNG), polynomials of degree 0..256, "
+             "1..8 points, 1..8 polynomials, MSM buffers 1..2^20, verifier decisions on true and shifted values under both verifier keys; "
+             "the iterators against the model and the naive folding for every (length 1..130, depth 0..7) in the thorough tier; "
+             "commit_folding/open_folding against the time prover on explicitly folded polynomials.",
+     "note": COMMON_NOTE + " Completeness of verify_multi_points (interpolation) and the equality of the stack-machine iterators with the naive "
+             "folding are established by the correspondence and the implementation-level oracle on the property's whole (length, depth) range, "
+             "not by a theorem; MSM buffer sizes only schedule a commutative sum and are not modelled."},
+]
 _PENDING = "check not built yet in this round (model and correspondence under construction; see DESIGN.md section 7)"
 _CLAIMED = {c["property_id"] for c in CHECKS}
 NOT_APPLICABLE = [{"property_id": "C%02d" % i, "reason": _PENDING} for i in range(1, 20) if "C%02d" % i not in _CLAIMED]
